@@ -87,7 +87,10 @@ var (
 	badDurations = []string{"5x", "-5m", "0", "0s", "1", "5 m", "1h30", "abc", "99999999999999999999d", "1y1y", "5M", "", "1.5m"}
 	badNames     = []string{"a{b}", "1foo", "foo bar", "foo-bar", "__name__", "métrique", "foo:bar{}", "{foo}", "", " foo", "foo\"", "a.b", "a/b", "{\"a\"}", "ALERTS"}
 	badExprs     = []string{"sum(", "foo bar", "up ==", "rate(foo)", "foo{", "1 +", "sum(foo) by", "foo[5m", "{}", "foo offset", "\"str\"", "", "foo{a=~\"(\"}",
-		"sum by (job) (foo) on (job) bar", "foo @ x", "count_values(foo)", "rate(foo[5m])[5m]", "foo and 1"}
+		"sum by (job) (foo) on (job) bar", "foo @ x", "count_values(foo)", "rate(foo[5m])[5m]", "foo and 1",
+		// valid syntax, but behind a feature flag Prometheus' rule loader does not enable
+		"mad_over_time(foo[5m]) > 1", "limitk(2, foo)", "limit_ratio(0.5, foo)", "sort_by_label(foo, \"job\")", "sort_by_label_desc(foo, \"job\")",
+		"info(foo)", "double_exponential_smoothing(foo[5m], 0.5, 0.5)", "sum(mad_over_time(foo[5m])) by (job) > 0"}
 	badTemplates = []string{"{{ $labels.x", "{{ nofunc }}", "{{ .Foo.Bar }}", "{{ end }}", "{{ if }}", "{{ $x }}", "{{ range }}", "{{ template \"x\" }}", "{{ \"a\" | nofilter }}",
 		"{{ $labels.job | humanize | }}", "}}{{", "{{ define \"x\" }}"}
 	unknownKeys = []string{"foo", "Alert", "exp", "label", "annotation", "For", "interval", "name", "rules", "groups", "limit", "partial_response_strategy", "keep_firing", "source_tenants", "query_offset", "evaluation_delay"}
